@@ -504,60 +504,118 @@ Proof.
   - apply range_incl_bounds in Hx. lia.
 Qed.
 
+(* fruits / droplets: pure integer arithmetic *)
+Lemma catch_fd_ok i m : catch_in_ok i -> 0 <= m <= catch_total i ->
+  let fd := catch_fd i m in
+  0 <= fst fd /\ 0 <= snd fd /\ fst fd + snd fd + m = catch_total i /\
+  (ci_o_fruits i = None -> fst fd <= ci_fruits i) /\ (ci_o_droplets i = None -> snd fd <= ci_droplets i).
+Proof.
+  intros (Hf & Hd & Ht & Hc & Hof & Hod & Hot & Hotm & Hm) Hm'. unfold catch_fd, catch_total in *. cbv zeta.
+  destruct (ci_o_fruits i) as [f|]; [specialize (Hof f eq_refl)|];
+    (destruct (ci_o_droplets i) as [d|]; [specialize (Hod d eq_refl)|]);
+    cbn [fst snd]; rewrite ?sat_sub_spec; repeat split; intros; try discriminate; lia.
+Qed.
+
+Lemma catch_find_best_ok i nf nd m acc : 0 <= ci_tiny i ->
+  let r := catch_find_best i nf nd m acc in 0 <= fst r /\ 0 <= snd r /\ fst r + snd r <= ci_tiny i.
+Proof.
+  intros Ht. unfold catch_find_best. cbv zeta.
+  apply catch_find_best_bounds; [exact Ht|apply to_u32_nonneg].
+Qed.
+
+Lemma catch_tiny_ok i nf nd m : catch_in_ok i ->
+  let tt := catch_tiny i nf nd m in
+  0 <= fst tt /\ 0 <= snd tt /\
+  (ci_acc i = None -> ci_o_tiny i = None \/ ci_o_tiny_misses i = None -> fst tt + snd tt = ci_tiny i).
+Proof.
+  intros (Hf & Hd & Ht & Hc & Hof & Hod & Hot & Hotm & Hm). unfold catch_tiny. cbv zeta.
+  pose proof (fun a => catch_find_best_ok i nf nd m a Ht) as Hfb. cbv zeta in Hfb.
+  destruct (ci_o_tiny i) as [t|]; [specialize (Hot t eq_refl)|];
+    (destruct (ci_o_tiny_misses i) as [tm|]; [specialize (Hotm tm eq_refl)|]).
+  - destruct (ci_acc i) as [a|].
+    + destruct (t + tm =? ci_tiny i) eqn:E.
+      * cbn [fst snd]. repeat split; try lia; try (intros; discriminate).
+      * destruct (Hfb a) as (H1 & H2 & H3). repeat split; try assumption; try (intros; discriminate).
+    + cbn [fst snd]. rewrite sat_sub_spec. repeat split; try lia; try (intros _ [H|H]; discriminate).
+  - cbn [fst snd]. rewrite sat_sub_spec. repeat split; try lia.
+  - cbn [fst snd]. rewrite sat_sub_spec. repeat split; try lia.
+  - destruct (ci_acc i) as [a|].
+    + destruct (Hfb a) as (H1 & H2 & H3). repeat split; try assumption; try (intros; discriminate).
+    + cbn [fst snd]. repeat split; lia.
+Qed.
+
 Theorem catch_generate_ok i : catch_in_ok i -> catch_gs_ok i (catch_generate i).
 Proof.
-  intros (Hf & Hd & Ht & Hc & Hof & Hod & Hot & Hotm & Hm).
-  destruct i as [af ad at_ combo o_f o_d o_t o_tm misses acc].
-  cbn [ci_fruits ci_droplets ci_tiny ci_combo ci_o_fruits ci_o_droplets ci_o_tiny ci_o_tiny_misses ci_misses ci_acc] in *.
-  unfold catch_generate, catch_total.
-  cbn [ci_fruits ci_droplets ci_tiny ci_combo ci_o_fruits ci_o_droplets ci_o_tiny ci_o_tiny_misses ci_misses ci_acc].
-  (* fruits / droplets / misses / combo: pure integer arithmetic *)
-  set (m := omin misses (af + ad)).
-  assert (Hm' : 0 <= m <= af + ad) by (apply omin_le; [lia|exact Hm]).
-  set (fd := match o_f, o_d with
-             | Some f, Some d => _ | Some f, None => _ | None, Some d => _ | None, None => _ end).
-  assert (Hfd : 0 <= fst fd /\ 0 <= snd fd /\ fst fd + snd fd + m = af + ad /\
-                (o_f = None -> fst fd <= af) /\ (o_d = None -> snd fd <= ad)).
-  { subst fd. destruct o_f as [f|]; [specialize (Hof f eq_refl)|];
-      (destruct o_d as [d|]; [specialize (Hod d eq_refl)|]);
-      cbn [fst snd]; rewrite ?sat_sub_spec; repeat split; intros; try discriminate; lia. }
-  destruct fd as [nf nd]. cbn [fst snd] in Hfd. destruct Hfd as (Hnf & Hnd & Hsum & Hcf & Hcd).
-  (* tiny droplets *)
-  set (tt := match o_t, o_tm with
-             | Some t, Some tm => _ | Some t, None => _ | None, Some tm => _ | None, None => _ end).
-  assert (Htt : 0 <= fst tt /\ 0 <= snd tt /\
-                (acc = None -> o_t = None \/ o_tm = None -> fst tt + snd tt = at_)).
-  { subst tt.
-    assert (Hfb : forall a : float,
-       let r := snd (pick (fun t => (t, at_ - t)) (fun t => fdist a (catch_accuracy nf nd t (at_ - t) m))
-                          (range_incl (Z.min at_ (to_u32 (ffloor (a * of_Z (af + ad + at_) - of_Z (nf + nd)))))
-                                      (Z.min at_ (to_u32 (fceil (a * of_Z (af + ad + at_) - of_Z (nf + nd))))))
-                          (infinity, (0, 0))) in
-       0 <= fst r /\ 0 <= snd r /\ fst r + snd r <= at_).
-    { intros a. apply catch_find_best_bounds; [exact Ht|apply to_u32_nonneg]. }
-    destruct o_t as [t|]; [specialize (Hot t eq_refl)|];
-      (destruct o_tm as [tm|]; [specialize (Hotm tm eq_refl)|]).
-    - destruct acc as [a|].
-      + destruct (t + tm =? at_) eqn:E.
-        * cbn [fst snd]. repeat split; try lia; try (intros; discriminate).
-        * destruct (Hfb a) as (H1 & H2 & H3). repeat split; try assumption; try (intros; discriminate).
-      + cbn [fst snd]. rewrite sat_sub_spec. repeat split; try lia; try (intros _ [H|H]; discriminate).
-    - cbn [fst snd]. rewrite sat_sub_spec. repeat split; try lia.
-    - cbn [fst snd]. rewrite sat_sub_spec. repeat split; try lia.
-    - destruct acc as [a|].
-      + destruct (Hfb a) as (H1 & H2 & H3). repeat split; try assumption; try (intros; discriminate).
-      + cbn [fst snd]. repeat split; lia. }
-  destruct tt as [t tm]. cbn [fst snd] in Htt. destruct Htt as (Ht1 & Ht2 & Ht3).
-  constructor; unfold catch_total;
-    cbn [cs_misses cs_fruits cs_droplets cs_combo cs_tiny cs_tiny_misses
-         ci_fruits ci_droplets ci_tiny ci_combo ci_o_fruits ci_o_droplets ci_o_tiny
-         ci_o_tiny_misses ci_misses ci_acc]; fold m.
+  intros Hok. pose proof Hok as (Hf & Hd & Ht & Hc & Hof & Hod & Hot & Hotm & Hm).
+  unfold catch_generate. fold (catch_total i).
+  set (m := omin (ci_misses i) (catch_total i)).
+  assert (Hm' : 0 <= m <= catch_total i) by (apply omin_le; [unfold catch_total; lia|exact Hm]).
+  pose proof (catch_fd_ok i m Hok Hm') as Hfd. cbv zeta in Hfd.
+  destruct (catch_fd i m) as [nf nd]. cbn [fst snd] in Hfd. destruct Hfd as (Hnf & Hnd & Hsum & Hcf & Hcd).
+  pose proof (catch_tiny_ok i nf nd m Hok) as Htt. cbv zeta in Htt.
+  destruct (catch_tiny i nf nd m) as [t tm]. cbn [fst snd] in Htt. destruct Htt as (Ht1 & Ht2 & Ht3).
+  constructor; cbn [cs_misses cs_fruits cs_droplets cs_combo cs_tiny cs_tiny_misses].
   - split; [reflexivity|lia].
   - split; assumption.
   - exact Hsum.
   - split; assumption.
-  - rewrite sat_sub_spec. destruct combo as [c|]; [specialize (Hc c eq_refl)|].
+  - rewrite sat_sub_spec. destruct (ci_combo i) as [c|]; [specialize (Hc c eq_refl)|].
     + split; [lia|]. intros c' H. injection H as <-. lia.
     + split; [lia|]. intros c' H. discriminate.
   - repeat split; assumption.
+Qed.
+
+(* generating again from the generated state (every field provided) returns it, for EVERY input:
+   the fruit / droplet arm sees a full state and keeps it; the tiny-droplet arm either keeps a
+   pair that already adds up or re-runs the same search on the same counts *)
+Theorem catch_generate_idem i : catch_in_ok i ->
+  catch_generate (catch_feed_back i (catch_generate i)) = catch_generate i.
+Proof.
+  intros Hok. pose proof Hok as (Hf & Hd & Ht & Hc & Hof & Hod & Hot & Hotm & Hm).
+  unfold catch_generate at 2 3. fold (catch_total i).
+  set (m := omin (ci_misses i) (catch_total i)).
+  assert (Hm' : 0 <= m <= catch_total i) by (apply omin_le; [unfold catch_total; lia|exact Hm]).
+  pose proof (catch_fd_ok i m Hok Hm') as Hfd. cbv zeta in Hfd.
+  destruct (catch_fd i m) as [nf nd] eqn:Efd. cbn [fst snd] in Hfd. destruct Hfd as (Hnf & Hnd & Hsum & Hcf & Hcd).
+  pose proof (catch_tiny_ok i nf nd m Hok) as Htt. cbv zeta in Htt.
+  destruct (catch_tiny i nf nd m) as [t tm] eqn:Ett. cbn [fst snd] in Htt. destruct Htt as (Ht1 & Ht2 & Ht3).
+  set (combo := match ci_combo i with Some c => Z.min c (sat_sub (catch_total i) m) | None => sat_sub (catch_total i) m end).
+  assert (Hcombo : 0 <= combo <= catch_total i - m).
+  { subst combo. rewrite sat_sub_spec. destruct (ci_combo i) as [c|]; [specialize (Hc c eq_refl)|]; lia. }
+  unfold catch_generate, catch_feed_back.
+  cbn [ci_fruits ci_droplets ci_tiny ci_combo ci_o_fruits ci_o_droplets ci_o_tiny ci_o_tiny_misses ci_misses ci_acc
+       cs_misses cs_fruits cs_droplets cs_combo cs_tiny cs_tiny_misses omin].
+  fold (catch_total i).
+  assert (E1 : Z.min m (catch_total i) = m) by lia. rewrite E1.
+  assert (E2 : Z.min combo (sat_sub (catch_total i) m) = combo) by (rewrite sat_sub_spec; lia). rewrite E2.
+  (* fruits / droplets *)
+  assert (Efd2 : catch_fd (mk_catch_in (ci_fruits i) (ci_droplets i) (ci_tiny i) (Some combo) (Some nf) (Some nd)
+                                        (Some t) (Some tm) (Some m) (ci_acc i)) m = (nf, nd)).
+  { unfold catch_fd. cbn [ci_fruits ci_droplets ci_o_fruits ci_o_droplets]. unfold catch_total in *.
+    rewrite !sat_sub_spec. f_equal; lia. }
+  rewrite Efd2.
+  (* tiny droplets *)
+  assert (Ett2 : catch_tiny (mk_catch_in (ci_fruits i) (ci_droplets i) (ci_tiny i) (Some combo) (Some nf) (Some nd)
+                                          (Some t) (Some tm) (Some m) (ci_acc i)) nf nd m = (t, tm)).
+  { unfold catch_tiny in *. cbn [ci_tiny ci_o_tiny ci_o_tiny_misses ci_acc].
+    assert (Hfb : forall a, catch_find_best (mk_catch_in (ci_fruits i) (ci_droplets i) (ci_tiny i) (Some combo) (Some nf)
+                                                         (Some nd) (Some t) (Some tm) (Some m) (ci_acc i)) nf nd m a
+                            = catch_find_best i nf nd m a) by reflexivity.
+    destruct (ci_acc i) as [a|] eqn:Ea.
+    - destruct (t + tm =? ci_tiny i) eqn:E; [reflexivity|]. rewrite Hfb.
+      (* the pair came out of the search (or of a provided pair that did not add up, which also
+         went through the search): the search is a function of the same arguments *)
+      destruct (ci_o_tiny i) as [t0|] eqn:E0; [specialize (Hot t0 eq_refl)|];
+        (destruct (ci_o_tiny_misses i) as [tm0|] eqn:E1'; [specialize (Hotm tm0 eq_refl)|]).
+      + destruct (t0 + tm0 =? ci_tiny i) eqn:E'.
+        * injection Ett as <- <-. rewrite E' in E. discriminate.
+        * exact Ett.
+      + injection Ett as <- <-. apply Z.eqb_neq in E. rewrite sat_sub_spec in E. lia.
+      + injection Ett as <- <-. apply Z.eqb_neq in E. rewrite sat_sub_spec in E. lia.
+      + exact Ett.
+    - f_equal. rewrite sat_sub_spec.
+      destruct (ci_o_tiny i) as [t0|] eqn:E0; [specialize (Hot t0 eq_refl)|];
+        (destruct (ci_o_tiny_misses i) as [tm0|] eqn:E1'; [specialize (Hotm tm0 eq_refl)|]);
+        injection Ett as <- <-; rewrite ?sat_sub_spec; lia. }
+  rewrite Ett2. reflexivity.
 Qed.
